@@ -192,6 +192,18 @@ class Runner(object):
         else:
             self.corr_broken.append((what, {"ops": prefix, "step": step}, real, model, tie))
 
+    def oracle_only(self, ops):
+        """real code vs byte store only (no model): used for inputs outside the modelled fragment."""
+        ck = self.ck
+        real, _ = self.real.run(ops)
+        st = mem_oracle.Store()
+        for n, op in enumerate(ops):
+            exp = st.apply(op)
+            if not st.judge(op, exp, real[n]["res"]) or not st.state_ok(real[n]["zones"]):
+                return self.diff("oracle-only", ops, n, real[n]["res"], None, "byte-store oracle on histories with zero-length writes")
+        ck.count("oracle-only.histories")
+        ck.case(("empty", json.dumps(ops, sort_keys=True)), nontrivial=any(o["k"] == "write" and o["val"] == ["raw", ""] for o in ops))
+
     def history(self, ops, tag):
         ck, drv = self.ck, self.drv
         self.nhist += 1
@@ -251,10 +263,35 @@ class Runner(object):
             ck.sample({"ops": ops[:6], "shape": shape(ops)[:300], "final_real_zones": real[-1]["zones"] if real else None})
 
 
+def with_empty_writes(r, ops):
+    """turn some writes of a history into zero-length raw writes (outside the theorems' hypothesis
+    `0 < v.len`; judged by the oracle on the real code only)."""
+    def z(o):
+        if o["k"] == "write" and r.random() < 0.15 and mem_gen.resolve(o["addr"]):
+            return dict(o, val=["raw", ""])
+        if o["k"] == "merge":
+            return dict(o, ops=[z(x) for x in o["ops"]])
+        return o
+    return [z(o) for o in ops]
+
+
 def main(tier):
     ck = Check("C08", tier)
     quick = tier == "quick"
     broken = ck.build_and_audit(["Amoco.Props.C08", "drv_mem"])
+    if not quick:
+        # independent re-check of the compiled property modules by the stand-alone kernel
+        import subprocess
+        try:
+            pr = subprocess.run(["lake", "env", "leanchecker", "Amoco.Props.C08", "Amoco.Proofs.Memory", "Amoco.Model.Memory"],
+                                cwd=LEAN, stdout=subprocess.PIPE, stderr=subprocess.STDOUT, text=True, timeout=1800)
+            okc = pr.returncode == 0
+            if not okc:
+                broken.append("leanchecker rejected the C08 modules: " + pr.stdout[-1500:])
+        except Exception as e:
+            okc = False
+            broken.append("leanchecker could not run: %r" % (e,))
+        ck.oblige("leanchecker Amoco.Props.C08 Amoco.Proofs.Memory Amoco.Model.Memory", okc)
     fresh_amoco()
     try:
         drv = Driver("drv_mem")
@@ -275,13 +312,20 @@ def main(tier):
                     run.history(h, fn)
                     ck.count("corpus")
 
-    nh = 700 if quick else 20000
-    maxlen = 40 if quick else 70
+    nh = 1500 if quick else 50000
+    maxlen = 40 if quick else 80
     for h in range(nh):
         r = rng("C08/%d" % h)
         g = mem_gen.Gen(r, ck)
         ops = g.history(r.randint(1, maxlen))
         run.history(ops, "gen")
+        if len(ck.violations) >= 5:
+            break
+    # oracle-only stream: histories with zero-length writes (the model's theorems assume non-empty writes)
+    for h in range(150 if quick else 8000):
+        r = rng("C08/empty/%d" % h)
+        ops = with_empty_writes(r, mem_gen.Gen(r).history(r.randint(1, maxlen)))
+        run.oracle_only(ops)
         if len(ck.violations) >= 5:
             break
     drv.close()
@@ -311,7 +355,8 @@ def main(tier):
     return ck.finish("hand-written corpus (one history per overlap case of addtomap, both endiannesses) + seeded random histories "
                      "of 1..%d operations (write 55%% / read 25%% / restruct, copy, shift, merge 20%%), write placement by explicit "
                      "overlap class; a history is one case, non-trivial when at least one write overlaps or touches earlier content; "
-                     "every operation of every history is compared (zones + result) and judged by the byte-store oracle" % maxlen)
+                     "every operation of every history is compared (zones + result) and judged by the byte-store oracle; plus an oracle-only "
+                     "stream of histories with zero-length writes (real code vs byte store)" % maxlen)
 
 
 def replay(path):
